@@ -3,6 +3,8 @@ import InfluxQL.Lemmas.Query
 import InfluxQL.Lemmas.PMonad
 import InfluxQL.Lemmas.RegexGap
 import InfluxQL.Model.ParserCore
+import InfluxQL.Lemmas.RenderQuery
+import InfluxQL.Lemmas.RenderPrinted
 /-!
 # C16 — statement separation, whitespace and comments do not change meaning
 
@@ -458,6 +460,235 @@ example : CommentRun ['b', ')'] (['/', '*', 'c', '*', '/'] ++ ([' '] ++ (['-', '
       (by intro c x h; simp at h; rw [← h.1]; decide) CommentRun.nil)
 example : (PState.init [' ', 'b', ')'] [] []).r.chars = [' '] ++ ([] ++ ['b', ')', eofRune]) := by decide
 example : Good (PState.init [' ', 'b', ')'] [] []) := ⟨Nat.le_refl _, by decide⟩
+
+/-! ## Statement level: the spelling of a statement does not change its AST (rendered families)
+
+`Lemmas/Render.lean` describes a statement text as `render` of a list of `(gap, piece)` pairs: every
+piece (keyword in any case, name bare or quoted, string, integer with leading zeros, duration
+literal, `=`) preceded by a gap — any sequence of whitespace runes and comments, possibly empty.
+`Props/C01.lean` proves for the administrative families that every legal rendering parses to the
+statement its parameters denote. `Lemmas/RenderQuery.lean` packages the families as `Family π σ`
+(`π` = parameters: names, numbers, clauses present; `σ` = spelling choices) — `zeroArgF` (SHOW
+DATABASES …), `singleNameF` (DROP DATABASE / MEASUREMENT / USER, SHOW GRANTS FOR), `nameOnDbF`,
+`showRetentionPoliciesF`, `killQueryF`, `dropShardF`, `createUserF`, `setPasswordF`, `grantF`,
+`revokeF`, `grantAdminF`, `revokeAdminF`, `createRetentionPolicyF`, `forModuleF`. -/
+
+open Render RenderQuery in
+/-- **C16 (b), statement level.** For every rendered family: two texts that are legal renderings of
+the same statement (same parameters `p`) — differing in the whitespace between tokens (any runs of
+space, tab, LF, CR LF), in comments inserted into that whitespace (any number, `/* … */` or
+`-- …⏎`), in keyword case, in the quoting of names and in leading zeros — parse to the same AST,
+namely the statement `F.ast p`. `k1`, `k2`: whatever follows the statement in either text (it must
+end the last piece, `Legal`, and not open an optional clause of the statement, `NextNot`; `[]`
+qualifies). Bound parameters and lower tables are irrelevant. -/
+theorem family_render_neutral {π σ : Type} (F : Family π σ) (p : π) (sp1 sp2 : σ) (hv1 : F.Valid p sp1)
+    (hv2 : F.Valid p sp2) (text1 text2 : Str) (params1 params2 : List (Str × BoundValue))
+    (tbl1 tbl2 : List (Char × Char)) (k1 k2 : Str)
+    (hfold1 : foldCR text1 = Render.render (F.spell p sp1).pieces ++ k1)
+    (hfold2 : foldCR text2 = Render.render (F.spell p sp2).pieces ++ k2)
+    (hL1 : Legal (F.spell p sp1).pieces (k1 ++ [eofRune])) (hL2 : Legal (F.spell p sp2).pieces (k2 ++ [eofRune]))
+    (hstop1 : ∀ t ∈ (F.spell p sp1).stop, NextNot (k1 ++ [eofRune]) t)
+    (hstop2 : ∀ t ∈ (F.spell p sp2).stop, NextNot (k2 ++ [eofRune]) t) :
+    parseStatementText text1 params1 tbl1 = .ok (F.ast p) ∧
+      parseStatementText text2 params2 tbl2 = parseStatementText text1 params1 tbl1 :=
+  RenderQuery.family_render_neutral F p sp1 sp2 hv1 hv2 text1 text2 params1 params2 tbl1 tbl2 k1 k2 hfold1 hfold2
+    hL1 hL2 hstop1 hstop2
+
+open Render RenderQuery in
+/-- The same without the `Family` packaging: two spelled statements of proved families that denote
+the same statement parse to the same AST. -/
+theorem spelled_render_neutral (x y : Spelled) (hx : x.OK) (hy : y.OK) (hxy : x.stmt = y.stmt) (text1 text2 : Str)
+    (params1 params2 : List (Str × BoundValue)) (tbl1 tbl2 : List (Char × Char)) (k1 k2 : Str)
+    (hfold1 : foldCR text1 = Render.render x.pieces ++ k1) (hfold2 : foldCR text2 = Render.render y.pieces ++ k2)
+    (hL1 : Legal x.pieces (k1 ++ [eofRune])) (hL2 : Legal y.pieces (k2 ++ [eofRune]))
+    (hstop1 : ∀ t ∈ x.stop, NextNot (k1 ++ [eofRune]) t) (hstop2 : ∀ t ∈ y.stop, NextNot (k2 ++ [eofRune]) t) :
+    parseStatementText text2 params2 tbl2 = parseStatementText text1 params1 tbl1 := by
+  rw [hx.parseStatementText text1 params1 tbl1 k1 hfold1 hL1 hstop1,
+    hy.parseStatementText text2 params2 tbl2 k2 hfold2 hL2 hstop2, hxy]
+
+open Render RenderQuery in
+/-- Non-vacuity: `DROP DATABASE foo` and `drop /* c */⏎⇥dataBASE "foo"` — lower / mixed case, a gap of
+blank, block comment, line feed, tab, and the name quoted — parse to the same statement. -/
+example : parseStatementText "DROP DATABASE foo".toList [] [] = .ok (.dropDatabase "foo".toList) ∧
+    parseStatementText "drop /* c */\n\tdataBASE \"foo\"".toList [] [] =
+      parseStatementText "DROP DATABASE foo".toList [] [] := by
+  refine family_render_neutral singleNameF
+    (⟨([.DROP, .DATABASE], .parseDropDatabaseStatement, .dropDatabase), by simp [C01.singleNameFamily]⟩, "foo".toList)
+    ([([], "DROP".toList), ([.ws ' '], "DATABASE".toList)], [.ws ' '], .bare)
+    ([([], "drop".toList), ([.ws ' ', .block " c ".toList, .ws '\n', .ws '\t'], "dataBASE".toList)], [.ws ' '], .quoted)
+    rfl rfl _ _ [] [] [] [] [] [] (by decide +kernel) (by decide +kernel) ?_ ?_ (by intro t ht; cases ht)
+    (by intro t ht; cases ht)
+  · exact legal_of_spaced _ _ _ _ (by decide +kernel) (by decide +kernel) (by decide +kernel)
+      (fun q _ => q.2.endOK_eof)
+  · exact legal_of_spaced _ _ _ _ (by decide +kernel) (by decide +kernel) (by decide +kernel)
+      (fun q _ => q.2.endOK_eof)
+
+/-! ## `ParseQuery` on rendered statements: the model's real `parseQuery`
+
+`parseQuery_split` above is about an abstract loop over token lists. Here the loop is the model's
+`queryLoop` (`Model/ParserStmt.lean`, the model of `Parser.ParseQuery`) run by `parseQueryText` on a
+raw text. The text is `sep₀ stmt₁ sep₁ stmt₂ … stmtₙ sepₙ`: every `stmtᵢ` a legal rendering
+(`Spelled`, `Spelled.OK`: any of the rendered families, any keyword case, quoting, gaps) and every
+separator a run of `;`, each `;` preceded by any gap (`semisText`; the gap behind the last `;` of a
+separator is the leading gap of the next statement, the gap behind the very last one is `g`).
+`queryText items K` = the items (`(;-run, statement)` pairs) followed by `K`; `QueryLegal`: all gaps
+well formed, every statement of a proved family and `Legal` in front of what follows it; `SepOK
+true items`: every statement but the first has a non-empty `;` run in front of it. -/
+
+open Render RenderQuery in
+/-- **C16 (a), rendered statements.** A query text consisting of legal renderings of statements of
+the proved families, separated by one or more semicolons with arbitrary gaps (whitespace, comments)
+between and around them, optionally led and trailed by semicolons and gaps, parses (`ParseQuery`) to
+exactly those statements, in order. Empty statements (`;;`), a trailing semicolon, trailing
+whitespace and comments are ignored. Any number of statements (`items = []`: the empty query). -/
+theorem parseQuery_rendered_split (text : Str) (params : List (Str × BoundValue)) (tbl : List (Char × Char))
+    (items : List Item) (gs : List Render.Gap) (g : Render.Gap)
+    (hfold : foldCR text = queryText items (semisText gs ++ gapText g))
+    (hL : QueryLegal items (tailText gs g)) (hsep : SepOK true items) (hgs : ∀ h ∈ gs, gapOK h = true)
+    (hg : gapOK g = true) : parseQueryText text params tbl = .ok (items.map (·.2.stmt)) :=
+  parseQueryText_rendered text params tbl items gs g hfold hL hsep hgs hg
+
+open Render RenderQuery in
+/-- The same with a decidable legality condition: when inside every statement the pieces are
+separated by non-empty gaps (`SpacedStmt`), nothing has to be said about how a statement meets what
+follows it — a gap, a `;` or the end of the input end every token. -/
+theorem parseQuery_rendered_split_spaced (text : Str) (params : List (Str × BoundValue)) (tbl : List (Char × Char))
+    (items : List Item) (gs : List Render.Gap) (g : Render.Gap)
+    (hfold : foldCR text = queryText items (semisText gs ++ gapText g)) (hok : ∀ z ∈ items, z.2.OK)
+    (hsp : ∀ z ∈ items, (∀ h ∈ z.1, gapOK h = true) ∧ SpacedStmt z.2.pieces = true) (hsep : SepOK true items)
+    (hgs : ∀ h ∈ gs, gapOK h = true) (hg : gapOK g = true) :
+    parseQueryText text params tbl = .ok (items.map (·.2.stmt)) :=
+  parseQueryText_rendered text params tbl items gs g hfold
+    (queryLegal_of_spaced gs g hgs hg items true hok hsp hsep) hsep hgs hg
+
+open Render RenderQuery in
+/-- **Each statement alone.** The text of one rendered statement (followed by any gap) parses as a
+query to the one-element list with that statement, and `ParseStatement` on it gives that statement:
+the result for a whole query (`parseQuery_rendered_split`) is the concatenation of the results of
+its statements parsed alone. -/
+theorem parseQuery_rendered_single (text : Str) (params : List (Str × BoundValue)) (tbl : List (Char × Char))
+    (x : Spelled) (hx : x.OK) (g : Render.Gap) (hg : gapOK g = true)
+    (hfold : foldCR text = Render.render x.pieces ++ gapText g) (hL : Legal x.pieces (gapText g ++ [eofRune])) :
+    parseQueryText text params tbl = .ok [x.stmt] ∧ parseStatementText text params tbl = .ok x.stmt := by
+  constructor
+  · refine parseQueryText_rendered text params tbl [([], x)] [] g ?_ ⟨by simp, hx, ?_, trivial⟩
+      ⟨Or.inl rfl, trivial⟩ (by simp) hg
+    · rw [hfold]; simp [queryText, semisText]
+    · simpa [queryText, tailText, semisText] using hL
+  · exact hx.parseStatementText text params tbl (gapText g) hfold hL
+      (fun t ht => nextNot_gap_eof g t hg (clauseOpeners_ne t (hx.stopKw t ht)).2)
+
+open Render RenderQuery in
+/-- **C16 (a), missing separator.** After one or more well-separated rendered statements, a further
+rendered statement `y` separated from the last one only by a gap (no `;`) makes `ParseQuery` fail
+with `found <first keyword of y>, expected ;` at that keyword's position — whatever follows (`k'`). -/
+theorem parseQuery_rendered_missing_separator (text : Str) (params : List (Str × BoundValue))
+    (tbl : List (Char × Char)) (items : List Item) (hne : items ≠ []) (y : Spelled) (hy : y.OK) (k' : Str)
+    (hfold : foldCR text = queryText items (Render.render y.pieces ++ k'))
+    (hL : QueryLegal items (Render.render y.pieces ++ (k' ++ [eofRune]))) (hsep : SepOK true items)
+    (hLy : Legal y.pieces (k' ++ [eofRune])) :
+    ∃ pos, parseQueryText text params tbl = .error (.err (.found (y.toks.headD .ILLEGAL).str [[';']] pos)) :=
+  parseQueryText_missing_stmt text params tbl items hne y hy k' hfold hL hsep hLy
+
+open Render RenderQuery in
+/-- The same for any token: after well-separated rendered statements, any legal piece `p` (keyword,
+name, string, number, `=`, `,`) that follows the last statement without a `;` and is not the opener
+of an optional clause of that statement is `found <p>, expected ;`. -/
+theorem parseQuery_rendered_missing_token (text : Str) (params : List (Str × BoundValue)) (tbl : List (Char × Char))
+    (items : List Item) (hne : items ≠ []) (g : Render.Gap) (p : Piece) (k' : Str)
+    (hfold : foldCR text = queryText items (Render.render [(g, p)] ++ k'))
+    (hL : QueryLegal items (Render.render [(g, p)] ++ (k' ++ [eofRune]))) (hsep : SepOK true items)
+    (hp : Legal [(g, p)] (k' ++ [eofRune])) (hstop : ∀ y, items.getLast? = some y → p.tok ∉ y.2.stop) :
+    ∃ pos, parseQueryText text params tbl = .error (.err (.found (tokstr p.tok p.lit) [[';']] pos)) :=
+  parseQueryText_missing text params tbl items hne g p k' hfold hL hsep hp hstop
+
+section examples
+open Render RenderQuery
+
+/-- Non-vacuity of `parseQuery_rendered_split`: `show databases ; /* c */ ;⏎ DROP DATABASE "a b" -- bye⏎ ;`
+— an empty statement, a block comment between two semicolons, a line comment before the trailing
+semicolon — parses to the two statements. -/
+example : parseQueryText "show databases ; /* c */ ;\n DROP DATABASE \"a b\" -- bye\n ;".toList [] [] =
+    .ok [.showDatabases, .dropDatabase "a b".toList] := by
+  refine parseQuery_rendered_split _ [] []
+    [([], exShow), ([[.ws ' '], [.ws ' ', .block " c ".toList, .ws ' ']], exDrop)]
+    [[.ws ' ', .line " bye".toList, .ws ' ']] [] (by decide +kernel) ?_ ⟨Or.inl rfl, Or.inr (by simp), trivial⟩
+    (by decide +kernel) rfl
+  refine ⟨by simp, exShow_ok, ?_, by decide +kernel, exDrop_ok, ?_, trivial⟩
+  · exact legal_of_spaced _ _ _ _ (by decide +kernel) (by decide +kernel) (by decide +kernel)
+      (fun q _ => q.2.endOK_sepHead ⟨' ', _, rfl, by decide⟩)
+  · exact legal_of_spaced _ _ _ _ (by decide +kernel) (by decide +kernel) (by decide +kernel)
+      (fun q _ => q.2.endOK_sepHead ⟨' ', _, rfl, by decide⟩)
+
+/-- Non-vacuity of `parseQuery_rendered_missing_separator`: `show databases⏎ DROP DATABASE "a b"` is
+rejected with `found DROP, expected ;`. -/
+example : ∃ pos, parseQueryText "show databases\n DROP DATABASE \"a b\"".toList [] [] =
+    .error (.err (.found "DROP".toList [[';']] pos)) := by
+  refine parseQuery_rendered_missing_separator _ [] [] [([], exShow)] (by simp) exDrop exDrop_ok []
+    (by decide +kernel) ⟨by simp, exShow_ok, ?_, trivial⟩ ⟨Or.inl rfl, trivial⟩ ?_
+  · exact legal_of_spaced _ _ _ _ (by decide +kernel) (by decide +kernel) (by decide +kernel)
+      (fun q _ => q.2.endOK_sepHead ⟨'\n', _, rfl, by decide⟩)
+  · exact legal_of_spaced _ _ _ _ (by decide +kernel) (by decide +kernel) (by decide +kernel)
+      (fun q _ => q.2.endOK_eof)
+
+end examples
+
+/-! ## Printed queries (`Statements.String()`) as an instance
+
+For the families where it is immediate — statements without arguments, single-name statements,
+`<name> ON <db>` statements, DROP SHARD (`RenderPrinted.Printed`) — the printed form (upper-case
+keywords, `QuoteIdent`, one blank between pieces) *is* a legal rendering, so a printed query
+(statements joined by `;⏎`) is covered by `parseQuery_rendered_split`. -/
+
+open Render RenderQuery RenderPrinted in
+/-- **The printed form is a legal rendering.** `Statement.print` of a statement of these families is
+`render` of its printed spelling (keywords upper case after one blank, names as `QuoteIdent` writes
+them, no leading zeros); for well-formed parameters (names without NUL / CR, shard id within
+`uint64`) that spelling belongs to a proved family and is legal (`SpacedStmt`). -/
+theorem print_is_render (p : Printed) :
+    Render.render (p.spelled []).pieces = p.stmt.print ∧ (p.spelled []).stmt = p.stmt ∧
+      (p.WF → (p.spelled []).OK ∧ SpacedStmt (p.spelled []).pieces = true) :=
+  ⟨RenderPrinted.print_is_render [] p, p.spelled_stmt [], fun h => ⟨p.ok [] h, p.spaced [] rfl h⟩⟩
+
+open Render RenderQuery RenderPrinted in
+/-- **C16 (a) for printed queries.** A raw text whose delivered form is `Statements.String()` of
+statements of these families — `stmt₁;⏎stmt₂;⏎…` — parses (`ParseQuery`) to exactly these statements,
+in order. -/
+theorem parseQuery_printed (ps : List Printed) (hwf : ∀ p ∈ ps, p.WF) (text : Str)
+    (params : List (Str × BoundValue)) (tbl : List (Char × Char))
+    (hfold : foldCR text = printStatements (ps.map Printed.stmt)) :
+    parseQueryText text params tbl = .ok (ps.map Printed.stmt) :=
+  parseQueryText_printed ps hwf text params tbl hfold
+
+open Render RenderQuery RenderPrinted in
+/-- **`ParseQuery(Statements.String())` = the statements.** The printed query itself (it contains no
+carriage return when the names are expressible: `RenderPrinted.noCR_printStatements`), for any number
+of well-formed statements of these families. -/
+theorem parseQuery_printed_text (ps : List Printed) (hwf : ∀ p ∈ ps, p.WF) (params : List (Str × BoundValue))
+    (tbl : List (Char × Char)) :
+    parseQueryText (printStatements (ps.map Printed.stmt)) params tbl = .ok (ps.map Printed.stmt) :=
+  parseQueryText_printed_text ps hwf params tbl
+
+open Render RenderQuery RenderPrinted in
+/-- Non-vacuity: `SHOW DATABASES;⏎DROP DATABASE "a b";⏎DROP SHARD 7` is the printed form of the three
+statements and parses back to them. -/
+example : printStatements [.showDatabases, .dropDatabase "a b".toList, .dropShard 7] =
+      "SHOW DATABASES;\nDROP DATABASE \"a b\";\nDROP SHARD 7".toList ∧
+    parseQueryText "SHOW DATABASES;\nDROP DATABASE \"a b\";\nDROP SHARD 7".toList [] [] =
+      .ok [.showDatabases, .dropDatabase "a b".toList, .dropShard 7] := by
+  refine ⟨by decide +kernel, ?_⟩
+  exact parseQuery_printed
+    [.zeroArg ([.SHOW, .DATABASES], .parseShowDatabasesStatement, .showDatabases) (by simp [C01.zeroArgFamily]),
+     .singleName ([.DROP, .DATABASE], .parseDropDatabaseStatement, .dropDatabase) (by simp [C01.singleNameFamily])
+       "a b".toList, .dropShard 7]
+    (by
+      intro p hp
+      simp only [List.mem_cons, List.not_mem_nil, or_false] at hp
+      rcases hp with rfl | rfl | rfl
+      · trivial
+      · show Expressible "a b".toList; decide
+      · show ((7 : Nat) : Int) ≤ maxUInt64; decide)
+    _ [] [] (by decide +kernel)
 
 /-! ## Negative examples: where the side conditions bite (kernel-checked) -/
 
